@@ -159,6 +159,25 @@ impl Future for Observe {
 const WATCHDOG: Duration = Duration::from_secs(30);
 const RESCUE: Duration = Duration::from_secs(3);
 
+/// Invoke a waker from a helper thread: `wake()` of a task waker waits while the cross-thread queue is
+/// full, which is for ever when the runtime is blocked; the harness thread itself must never get stuck.
+fn wake_with_deadline(w: Waker, d: Duration) -> bool {
+    let h = match std::thread::Builder::new().name("c03b-rescue-wake".into()).spawn(move || w.wake_by_ref()) {
+        Ok(h) => h,
+        Err(_) => return false,
+    };
+    let s = Instant::now();
+    while !h.is_finished() && s.elapsed() < d {
+        std::thread::sleep(Duration::from_millis(1));
+    }
+    if h.is_finished() {
+        let _ = h.join();
+        true
+    } else {
+        false
+    }
+}
+
 fn busy_wait(us: u64) {
     let s = Instant::now();
     while (s.elapsed().as_nanos() as u64) < us * 1000 {
@@ -347,7 +366,12 @@ fn run_inner(case: &Case, allow_control: bool) -> Outcome {
         (Mode::CompatTokio, true) => "compat-tokio/io-uring",
         (Mode::CompatTokio, false) => "compat-tokio/poll",
     };
-    let verdict: Result<(), Outcome> = match done_rx.recv_timeout(WATCHDOG) {
+    // the regression case of the known (deterministic) shape is judged by rescue + differential control, so a
+    // shorter wait only makes it cheaper, never changes a verdict
+    let watchdog = if case.prearm { WATCHDOG } else { Duration::from_secs(8) };
+    // (sensitivity runs only: a mutant makes most cases hang, `C03B_WATCHDOG_S` keeps such a run short)
+    let watchdog = std::env::var("C03B_WATCHDOG_S").ok().and_then(|v| v.parse().ok()).map(Duration::from_secs).unwrap_or(watchdog);
+    let verdict: Result<(), Outcome> = match done_rx.recv_timeout(watchdog) {
         Ok(Ok(())) => Ok(()),
         Ok(Err(e)) => Err(Outcome::inconclusive(e)),
         Err(_) => {
@@ -374,8 +398,9 @@ fn run_inner(case: &Case, allow_control: bool) -> Outcome {
                 // ONE redundant wake of one affected target
                 let i = lost[0];
                 let before: Vec<u64> = sh.targets.iter().map(|t| t.polls.load(SeqCst)).collect();
-                if let Some(w) = sh.targets[i].waker.lock().unwrap().clone() {
-                    w.wake_by_ref();
+                let w = sh.targets[i].waker.lock().unwrap().clone();
+                if let Some(w) = w {
+                    wake_with_deadline(w, RESCUE);
                 }
                 let s = Instant::now();
                 let mut rescued = false;
@@ -471,9 +496,14 @@ fn run_inner(case: &Case, allow_control: bool) -> Outcome {
         let s = Instant::now();
         loop {
             for t in &sh.targets {
-                if let Some(w) = t.waker.lock().unwrap().clone() {
-                    w.wake_by_ref();
+                let w = t.waker.lock().unwrap().clone();
+                if let Some(w) = w {
+                    wake_with_deadline(w, Duration::from_millis(200));
                 }
+            }
+            {
+                use std::io::Write;
+                let _ = (&rescue_harness).write(&[1]);
             }
             if done_rx.recv_timeout(Duration::from_millis(50)).is_ok() {
                 let _ = rt_thread.join();
